@@ -14,7 +14,8 @@ Variable c : cfg.
 Definition wl (t : text) : text := write_line_no_wrap (autotrim c) (cols c) t.
 
 (* the hypothesis "texts fit": well-formed, and not wider than the terminal after the trim *)
-Definition text_ok (t : text) : Prop := wf_text t = true /\ length (visible (wl t)) <= width tc.
+Definition text_ok (t : text) : Prop :=
+  wf_text t = true /\ length (visible (wl t)) + (if dec tc then 1 else 0) <= width tc.
 Definition ups_ok (ups : list (nat * text)) : Prop := forall u, In u ups -> text_ok (snd u).
 
 (* what each line shows after the updates ups, starting from d *)
@@ -71,7 +72,7 @@ Proof.
   set (sc2 := mkscr (rows sc1) (crow sc1 + a - b) 0 (cvis sc1) (hides sc1)).
   assert (Hrow2 : crow sc2 = line) by (subst sc2 a b; cbn; lia).
   cbn [fold_left interp]. fold v.
-  destruct (prints_ext tc v sc2) as (P1 & P2 & P3 & P4 & P5); [subst sc2; cbn; exact Hfit|].
+  destruct (prints_ext tc v sc2) as (P1 & P2 & P3 & P4 & P5); [subst sc2; cbn; lia|].
   cbn zeta in P1, P2, P3, P4, P5.
   set (X := fold_left (print tc) v sc2) in *.
   split; [|split; [reflexivity|split; [reflexivity|]]].
@@ -79,9 +80,13 @@ Proof.
     + rewrite P1. exact Hrow2.
     + rewrite P3. subst sc2. cbn. rewrite V1. rewrite orb_true_r. reflexivity.
     + rewrite P4. subst sc2. cbn. rewrite Hd1. rewrite orb_true_r. reflexivity.
-    + intros l. rewrite erase0_ext. rewrite P1, P2, Hrow2. rewrite !P5, Hrow2. rewrite Nat.eqb_refl.
+    + intros l. rewrite erase0_ext.
+      assert (He : ecol tc X = length v).
+      { unfold ecol. rewrite P2. subst sc2. cbn [ccol]. destruct (dec tc); cbn [andb]; [|reflexivity].
+        destruct (Nat.leb_spec (width tc) (0 + length v)); [lia | reflexivity]. }
+      rewrite He, P1, Hrow2. rewrite !P5, Hrow2. rewrite Nat.eqb_refl.
       rewrite (Nat.eqb_sym line l). destruct (Nat.eqb l line) eqn:E.
-      * cbn [ccol sc2]. subst sc2. cbn [ccol]. apply overwrite_then_erase.
+      * subst sc2. cbn [ccol]. apply overwrite_then_erase.
       * subst sc2. cbn [rows]. rewrite R1. apply Irows.
     + reflexivity.
     + reflexivity.
@@ -123,6 +128,12 @@ Proof.
 Qed.
 
 (* ---------------------------------------------------------------- Close *)
+Lemma ecol_0 : forall s, ccol s = 0 -> ecol tc s = 0.
+Proof.
+  intros s H. unfold ecol. rewrite H. destruct (dec tc); cbn [andb]; [|reflexivity].
+  destruct (Nat.leb_spec (width tc) 0); lia.
+Qed.
+
 Lemma close_step : forall s sc F s' seg,
   Inv s sc F -> tw_close s = (s', seg) ->
   exists sc', run tc (sc, Ground) (render seg) = (sc', Ground) /\
@@ -139,8 +150,8 @@ Proof.
   eexists. split; [exact (run_render tc _ sc Hok)|].
   rewrite !fold_left_app, goto_split. cbn [fold_left interp].
   destruct (tw_hidden s) eqn:Hh; cbn [fold_left interp]; cbn.
-  - repeat split; try reflexivity. subst a b. lia. destruct (onlcr tc); reflexivity.
-  - repeat split; try reflexivity. subst a b. lia. destruct (onlcr tc); reflexivity. exact Iv.
+  - repeat split; try reflexivity. subst a b. lia. destruct (onlcr tc); [reflexivity | apply ecol_0; reflexivity].
+  - repeat split; try reflexivity. subst a b. lia. destruct (onlcr tc); [reflexivity | apply ecol_0; reflexivity]. exact Iv.
 Qed.
 
 (* ---------------------------------------------------------------- spec-side bookkeeping *)
@@ -206,7 +217,7 @@ End Main.
 
 (* with AutoTrim on and a terminal at least as wide as computedCols, every well-formed text fits *)
 Lemma trim_on_fits : forall tc c ups,
-  autotrim c = true -> Z.to_nat (cols c) <= width tc ->
+  autotrim c = true -> Z.to_nat (cols c) + (if dec tc then 1 else 0) <= width tc ->
   (forall u, In u ups -> wf_text (snd u) = true) -> ups_ok tc c ups.
 Proof.
   intros tc c ups Ha Hw Hwf u Hu. split; [apply Hwf; exact Hu|].
